@@ -194,9 +194,22 @@ def load_corr(prop):
     return importlib.import_module("corr." + prop)
 
 
+def props_modules(prop):
+    """Props/Cxx.lean plus optional Props/Cxx_<part>.lean (module names)."""
+    d = LEAN / "PyGqlModel" / "Props"
+    files = sorted(p for p in d.glob(prop + "*.lean") if p.stem == prop or p.stem.startswith(prop + "_"))
+    return ["PyGqlModel.Props." + p.stem for p in files]
+
+
 def theorem_names(prop):
-    """Names of the property theorems = every `theorem` in Props/Cxx.lean."""
-    src = (LEAN / "PyGqlModel" / "Props" / (prop + ".lean")).read_text()
+    """Names of the property theorems = every non-private `theorem` in Props/Cxx.lean, Props/Cxx_*.lean."""
+    names = []
+    for mod in props_modules(prop):
+        names += _theorem_names_in((LEAN / (mod.replace(".", "/") + ".lean")).read_text())
+    return names
+
+
+def _theorem_names_in(src):
     ns = []
     names = []
     for line in src.splitlines():
@@ -217,7 +230,7 @@ def theorem_names(prop):
 def lean_files_of(prop):
     """Lean sources this property depends on (transitively, inside the project)."""
     seen = {}
-    todo = ["PyGqlModel.Props." + prop, "Driver." + prop]
+    todo = props_modules(prop) + ["Driver." + prop]
     while todo:
         mod = todo.pop()
         if mod in seen:
@@ -269,7 +282,7 @@ def build(prop):
     rc, out = sh(["lake", "build", "drv_" + prop], cwd=LEAN)
     res["driver_ok"] = rc == 0
     res["log"] += out[-6000:] if rc else ""
-    rc, out = sh(["lake", "build", "PyGqlModel.Props." + prop], cwd=LEAN)
+    rc, out = sh(["lake", "build"] + props_modules(prop), cwd=LEAN)
     res["props_ok"] = rc == 0
     if rc:
         res["log"] += out[-12000:]
@@ -304,7 +317,7 @@ def audit(prop):
     adir = LEAN / ".lake" / "audit"
     adir.mkdir(parents=True, exist_ok=True)
     f = adir / ("Audit_%s.lean" % prop)
-    f.write_text("import PyGqlModel.Props.%s\n" % prop + "".join("#print axioms %s\n" % n for n in names))
+    f.write_text("".join("import %s\n" % m for m in props_modules(prop)) + "".join("#print axioms %s\n" % n for n in names))
     rc, out = sh(["lake", "env", "lean", str(f)], cwd=LEAN)
     ok, bad = [], []
     # output: "'name' depends on axioms: [a, b]" or "'name' does not depend on any axioms"
@@ -325,9 +338,14 @@ def audit(prop):
 
 
 def load_known():
-    if KNOWN.exists():
-        return json.loads(KNOWN.read_text())
-    return {"findings": [], "fixed": []}
+    """known_findings.json (+ per-property fragments known_findings.d/*.json, merged at integration time)."""
+    k = {"findings": [], "fixed": []}
+    files = ([KNOWN] if KNOWN.exists() else []) + sorted((VERIF / "known_findings.d").glob("*.json"))
+    for f in files:
+        d = json.loads(f.read_text())
+        k["findings"] += d.get("findings", [])
+        k["fixed"] += d.get("fixed", [])
+    return k
 
 
 def match_known(prop, signature, known):
@@ -392,7 +410,7 @@ def run_check(prop, tier, seed, replay=None):
             obligations_broken.append("forbidden construct: " + h)
         leanchecker = None
         if tier == "thorough" and b["props_ok"]:
-            rc, out = sh(["lake", "env", "leanchecker", "PyGqlModel.Props." + prop], cwd=LEAN, timeout=1800)
+            rc, out = sh(["lake", "env", "leanchecker"] + props_modules(prop), cwd=LEAN, timeout=1800)
             leanchecker = "ok" if rc == 0 else "FAILED: " + out[-500:]
             if rc != 0:
                 obligations_broken.append("leanchecker rejects PyGqlModel.Props." + prop)
